@@ -31,7 +31,9 @@ Inductive gexpr :=
 | EBin (o : binop) (a b : gexpr)
 | ENot (e : gexpr)
 | EInt (n : Z) | EStr (s : string) | ENil | EBool (b : bool)
-| EId (e : gexpr)                                     (* &e, *e, e[:] : no effect on the symbolic value *)
+| EId (e : gexpr)                                     (* *e, e[:] : no effect on the symbolic value *)
+| EAddr (e : gexpr)                                   (* &e: the value when read, the place when a callee writes through it *)
+| ENew (ty : string)                                  (* new(T), and the zero value of a declared variable *)
 | ELit (ty : string) (fs : list (string * gexpr))     (* T{f: e, ...} *)
 | EIndex (e i : gexpr)                                (* e[i] *)
 | EUnknown (what : string).
@@ -42,6 +44,8 @@ Inductive gstmt :=
 | SIf (init : list gstmt) (c : gexpr) (thn els : list gstmt)
 | SReturn (es : list gexpr)
 | SSkip (what : string)                               (* logging call *)
+| SExpr (e : gexpr)                                   (* a call for its effect *)
+| SSendOrDone (ch v : gexpr) (oncancel : list gstmt)  (* select { case <-ctx.Done(): oncancel; case ch <- v: } *)
 | SVarZero (vars : list (string * string))            (* var x T: the zero value of T *)
 | SUnknown (what : string).
 
@@ -49,7 +53,8 @@ Record gfun := { f_recv : option string; f_params : list string; f_body : list g
 
 (* ---- values ---------------------------------------------------------------------------------------------- *)
 (* the manager as far as the decision functions read it *)
-Record mgr := { mg_genesis : genesis; mg_da_block_time : Z }.
+Record mgr := { mg_genesis : genesis; mg_da_block_time : Z;
+                mg_hseen : list header; mg_dseen : list commitment }.   (* headerCache / dataCache seen sets *)
 (* pendingBase as far as numPending / isEmpty read it: the store height (None = the store call fails) and the
    in-memory last-submitted height *)
 Record pbase := { pb_height : option N; pb_last : N }.
@@ -77,6 +82,12 @@ Inductive gval :=
 | VId (h : N)
 | VIdsResult (ids : list N) (ts : N)            (* *GetIDsResult, non-nil *)
 | VBlobs (n : nat)                              (* data [][]byte as far as the helper reads it: its length *)
+(* the DA admission path of block/retriever.go over the vocabulary of Model/Admission.v *)
+| VBlob (b : blob)                              (* the bytes of a DA blob, by what they decode to *)
+| VPbHeader (sh : option sheader)               (* a pb.SignedHeader after proto.Unmarshal: decodable by FromProto or not *)
+| VZero (ty : string)                           (* new(T) / var x T before anything was decoded into it *)
+| VHash (h : header) | VHCache (seen : list header) | VDCache (seen : list commitment) | VChan (name : string)
+| VEff (what : string) (args : list gval)       (* an effect: cache mark, signal, channel send *)
 | VUnit.
 
 Definition env := list (string * gval).
@@ -144,6 +155,7 @@ Definition sel (v : gval) (f : string) : res gval :=
       if f =? "Metadata" then RRet (VOMeta (d_meta d)) else
       if f =? "Txs" then RRet (VTxs (Some (d_txs d))) else RFail ("Data." ++ f)
   | VOSData (Some sd) =>
+      if f =? "Metadata" then RRet (VOMeta (d_meta (sd_data sd))) else
       if f =? "Txs" then RRet (VTxs (Some (d_txs (sd_data sd)))) else   (* embedded Data; nil-ness of Txs: see GoLiteLemmas *)
       if f =? "Data" then RRet (VData (sd_data sd)) else
       if f =? "Signer" then RRet (VSigner (sd_signer sd)) else
@@ -156,7 +168,11 @@ Definition sel (v : gval) (f : string) : res gval :=
       if f =? "AppHash" then RRet (VRoot (s_app s)) else RFail ("State." ++ f)
   | VMgr m =>
       if f =? "genesis" then RRet (VGenesis (mg_genesis m)) else
-      if f =? "config" then RRet (VCfg m ["config"]) else RFail ("Manager." ++ f)
+      if f =? "config" then RRet (VCfg m ["config"]) else
+      if f =? "headerCache" then RRet (VHCache (mg_hseen m)) else
+      if f =? "dataCache" then RRet (VDCache (mg_dseen m)) else
+      if (f =? "headerInCh") || (f =? "dataInCh") then RRet (VChan f) else
+      if f =? "signaturePayloadProvider" then RRet VNil else RFail ("Manager." ++ f)
   | VCfg m p =>
       (* m.config.DA.BlockTime.Duration *)
       if f =? "Duration" then
@@ -184,7 +200,8 @@ Definition meth (v : gval) (m : string) (args : list gval) : res gval :=
   | VSHeader sh, [] =>
       if m =? "ChainID" then RRet (VN (h_chain (sh_hdr sh))) else
       if m =? "Height" then RRet (VN (h_height (sh_hdr sh))) else
-      if m =? "Time" then RRet (VZ (h_time (sh_hdr sh))) else RFail ("SignedHeader." ++ m)
+      if m =? "Time" then RRet (VZ (h_time (sh_hdr sh))) else
+      if m =? "Hash" then RRet (VHash (sh_hdr sh)) else RFail ("SignedHeader." ++ m)
   | VData d, [] =>
       if m =? "DACommitment" then RRet (VCommit (d_txs d)) else
       if m =? "MarshalBinary" then RRet (VTuple [VDataBytes d; VErr false]) else
@@ -196,6 +213,11 @@ Definition meth (v : gval) (m : string) (args : list gval) : res gval :=
           if m =? "Time" then RRet (VZ (m_time mt)) else RFail ("Data." ++ m)
       | None => RFail "nil Metadata dereference"
       end
+  | VSHeader sh, [_] => if m =? "SetCustomVerifier" then RRet VUnit else RFail ("SignedHeader." ++ m)
+  | VHash h, [] => if m =? "String" then RRet (VHash h) else RFail ("Hash." ++ m)
+  | VCommit c, [] => if m =? "String" then RRet (VCommit c) else RFail ("Hash." ++ m)
+  | VHCache seen, [VHash h] => if m =? "IsSeen" then RRet (VBool (mem_header h seen)) else RFail ("headerCache." ++ m)
+  | VDCache seen, [VCommit c] => if m =? "IsSeen" then RRet (VBool (mem_commitment c seen)) else RFail ("dataCache." ++ m)
   | VZ t, [VZ u] =>
       if m =? "After" then RRet (VBool (u <? t)%Z) else       (* t.After(u) *)
       if m =? "Before" then RRet (VBool (t <? u)%Z) else RFail ("Time." ++ m)
@@ -240,6 +262,8 @@ Definition builtin (globals : env) (f : string) (args : list gval) : res gval :=
     | [VSig s] => RRet (VN (sig_len s))
     | [VIds ids _] => RRet (VN (N.of_nat (length ids)))
     | [VBlobs n] => RRet (VN (N.of_nat n))
+    | [VTxs (Some l)] => RRet (VN (N.of_nat (length l)))
+    | [VTxs None] => RRet (VN 0)
     | _ => RFail "len"
     end
   else if f =? "bytes.Equal" then
@@ -361,9 +385,72 @@ Fixpoint bind_params (ps : list string) (vs : list gval) : env :=
 
 Definition starts_with_Err (x : string) : bool := String.prefix "Err" x.
 
+(* ---- calls that write through the receiver or through a pointer argument, and calls made for their effect --- *)
+(* (result, new value of the receiver, new values of the arguments by position) *)
+Definition mut_meth (v : gval) (m : string) (args : list gval) : option (gval * option gval * list (nat * gval)) :=
+  match v, args with
+  | VZero ty, [VPbHeader o] =>
+      if (ty =? "SignedHeader") && (m =? "FromProto") then              (* header.FromProto(&headerPb) *)
+        match o with
+        | Some sh => Some (VNil, Some (VSHeader sh), [])
+        | None => Some (VErr true, None, [])
+        end
+      else None
+  | VZero ty, [VBlob b] =>
+      if (ty =? "SignedData") && (m =? "UnmarshalBinary") then          (* signedData.UnmarshalBinary(bz) *)
+        match b with
+        | BData sd => Some (VNil, Some (VOSData (Some sd)), [])
+        | _ => Some (VErr true, None, [])
+        end
+      else None
+  | _, _ => None
+  end.
+
+Definition mut_call (f : string) (args : list gval) : option (gval * list (nat * gval)) :=
+  if f =? "proto.Unmarshal" then                                        (* proto.Unmarshal(bz, &headerPb) *)
+    match args with
+    | [VBlob (BHdr sh); VZero _] => Some (VNil, [(1%nat, VPbHeader (Some sh))])
+    | [VBlob BHdrUndecodable; VZero _] => Some (VNil, [(1%nat, VPbHeader None)])
+    | [VBlob _; VZero _] => Some (VErr true, [])
+    | _ => None
+    end
+  else None.
+
+Definition effect_of (v : gval) (m : string) (args : list gval) : option gval :=
+  match v with
+  | VHCache _ => if m =? "SetDAIncluded" then Some (VEff "header-da-included" args) else None
+  | VDCache _ => if m =? "SetDAIncluded" then Some (VEff "data-da-included" args) else None
+  | VMgr _ => if m =? "sendNonBlockingSignalToDAIncluderCh" then Some (VEff "signal-da-includer" []) else None
+  | _ => None
+  end.
+
+(* where a callee's write lands: a variable passed as the receiver, or as &x *)
+Definition recv_place (e : gexpr) : option string := match e with EVar x => Some x | _ => None end.
+Definition arg_place (e : gexpr) : option string := match e with EAddr (EVar x) => Some x | _ => None end.
+Fixpoint apply_updates (en : env) (args : list gexpr) (ups : list (nat * gval)) : env :=
+  match ups with
+  | [] => en
+  | (i, v) :: r => match option_map arg_place (nth_error args i) with
+                   | Some (Some x) => apply_updates ((x, v) :: en) args r
+                   | _ => apply_updates en args r
+                   end
+  end.
+Definition zero_of (ty : string) : gval :=
+  if ty =? "uint64" then VN 0 else if ty =? "error" then VNil else
+  if (ty =? "types.SignedData") || (ty =? "SignedData") then VZero "SignedData" else
+  if (ty =? "pb.SignedHeader") then VZero "pb.SignedHeader" else VZero ty.
+
+Definition bind_result (xs : list string) (v : gval) : option env :=
+  match xs, v with
+  | [x], _ => Some [(x, v)]
+  | _, VTuple vs => if Nat.eqb (length vs) (length xs) then Some (bind_params xs vs) else None
+  | _, _ => None
+  end.
+
 (* ---- evaluation -------------------------------------------------------------------------------------------
-   [fs] = the table of translated functions; [globals] = package-level names and "$now".  One fuel for
-   everything; exhaustion is a failure. *)
+   [fs] = the table of translated functions; [globals] = package-level names, "$now", "$cancelled".  One fuel
+   for everything; exhaustion is a failure.  Expressions are pure; writes through a receiver / pointer argument
+   and effects happen in statements ([exec] threads the effect log [lg], newest first). *)
 Fixpoint eval (fuel : nat) (fs : list (string * gfun)) (globals en : env) (e : gexpr) {struct fuel} : res gval :=
   match fuel with
   | O => RFail "fuel"
@@ -374,8 +461,12 @@ Fixpoint eval (fuel : nat) (fs : list (string * gfun)) (globals en : env) (e : g
                  | Some r, Some v => (r, v) :: bind_params (f_params fn) vs
                  | _, _ => bind_params (f_params fn) vs
                  end in
-      bind (exec fuel' fs globals en' (f_body fn))
-           (fun out => match out with [v] => RRet v | l => RRet (VTuple l) end) in
+      bind (exec fuel' fs globals en' [] (f_body fn))
+           (fun out => match out with
+                       | ([v], []) => RRet v
+                       | (l, []) => RRet (VTuple l)
+                       | (_, _ :: _) => RFail "effect inside an expression"
+                       end) in
     match e with
     | EVar x =>
         match lookup en x with
@@ -420,6 +511,8 @@ Fixpoint eval (fuel : nat) (fs : list (string * gfun)) (globals en : env) (e : g
     | ENil => RRet VNil
     | EBool b => RRet (VBool b)
     | EId a => ev a
+    | EAddr a => ev a
+    | ENew ty => RRet (VZero ty)
     | ELit ty fields =>
         if ty =? "Data" then
           match fields with
@@ -439,59 +532,110 @@ Fixpoint eval (fuel : nat) (fs : list (string * gfun)) (globals en : env) (e : g
     | EUnknown w => RFail ("outside the fragment: " ++ w)
     end
   end
-with exec (fuel : nat) (fs : list (string * gfun)) (globals en : env) (ss : list gstmt) {struct fuel} : res (list gval) :=
+with exec (fuel : nat) (fs : list (string * gfun)) (globals en : env) (lg : list gval) (ss : list gstmt) {struct fuel}
+  : res (list gval * list gval) :=
   match fuel with
   | O => RFail "fuel"
   | S fuel' =>
+    let ev := eval fuel' fs globals en in
     match ss with
-    | [] => RRet []
+    | [] => RRet ([], lg)
     | s :: rest =>
+      (* the pure path of an assignment *)
+      let assign_pure (xs : list string) (e : gexpr) :=
+        bind (ev e) (fun v => match bind_result xs v with
+                              | Some b => exec fuel' fs globals (b ++ en) lg rest
+                              | None => RFail "assignment arity"
+                              end) in
       match s with
-      | SAssign [x] e =>
-          bind (eval fuel' fs globals en e) (fun v => exec fuel' fs globals ((x, v) :: en) rest)
-      | SAssign xs e =>
-          bind (eval fuel' fs globals en e) (fun v =>
-            match v with
-            | VTuple vs => if Nat.eqb (length vs) (length xs)
-                           then exec fuel' fs globals (bind_params xs vs ++ en) rest
-                           else RFail "assignment arity"
-            | _ => RFail "assignment arity"
-            end)
+      | SAssign xs (EMeth a m args) =>
+          bind (ev a) (fun v => bind (seq_res (map ev args)) (fun vs =>
+            match lookup fs (tyname v ++ "." ++ m) with
+            | Some _ => assign_pure xs (EMeth a m args)
+            | None =>
+              match mut_meth v m vs with
+              | Some (result, nrecv, ups) =>
+                  let en1 := match nrecv, recv_place a with
+                             | Some nv, Some x => (x, nv) :: en
+                             | _, _ => en
+                             end in
+                  let en2 := apply_updates en1 args ups in
+                  match bind_result xs result with
+                  | Some b => exec fuel' fs globals (b ++ en2) lg rest
+                  | None => RFail "assignment arity"
+                  end
+              | None => assign_pure xs (EMeth a m args)
+              end
+            end))
+      | SAssign xs (ECall f args) =>
+          match lookup fs f with
+          | Some _ => assign_pure xs (ECall f args)
+          | None =>
+            bind (seq_res (map ev args)) (fun vs =>
+              match mut_call f vs with
+              | Some (result, ups) =>
+                  match bind_result xs result with
+                  | Some b => exec fuel' fs globals (b ++ apply_updates en args ups) lg rest
+                  | None => RFail "assignment arity"
+                  end
+              | None => assign_pure xs (ECall f args)
+              end)
+          end
+      | SAssign xs e => assign_pure xs e
       | SOpAssign x o e =>
           match lookup en x with
-          | Some v0 => bind (eval fuel' fs globals en e) (fun v1 =>
+          | Some v0 => bind (ev e) (fun v1 =>
                          let '(a, b) := coerce v0 v1 in
-                         bind (arith o a b) (fun v => exec fuel' fs globals ((x, v) :: en) rest))
+                         bind (arith o a b) (fun v => exec fuel' fs globals ((x, v) :: en) lg rest))
           | None => RFail ("unbound " ++ x)
           end
-      | SIf (i :: init) c t e => exec fuel' fs globals en (i :: SIf init c t e :: rest)
+      | SIf (i :: init) c t e => exec fuel' fs globals en lg (i :: SIf init c t e :: rest)
       | SIf [] c t e =>
-          bind (eval fuel' fs globals en c) (fun v =>
+          bind (ev c) (fun v =>
             match v with
-            | VBool b => RIf b (exec fuel' fs globals en (t ++ rest)) (exec fuel' fs globals en (e ++ rest))
+            | VBool b => RIf b (exec fuel' fs globals en lg (t ++ rest)) (exec fuel' fs globals en lg (e ++ rest))
             | _ => RFail "if on a non-boolean"
             end)
-      | SReturn es => seq_res (map (eval fuel' fs globals en) es)
-      | SSkip _ => exec fuel' fs globals en rest
-      | SVarZero vars =>
-          exec fuel' fs globals
-               (map (fun v => (fst v, if (snd v =? "uint64") then VN 0 else VNil)) vars ++ en) rest
+      | SReturn es => bind (seq_res (map ev es)) (fun vs => RRet (vs, lg))
+      | SSkip _ => exec fuel' fs globals en lg rest
+      | SExpr (EMeth a m args) =>
+          bind (ev a) (fun v => bind (seq_res (map ev args)) (fun vs =>
+            match effect_of v m vs with
+            | Some eff => exec fuel' fs globals en (eff :: lg) rest
+            | None => bind (ev (EMeth a m args)) (fun _ => exec fuel' fs globals en lg rest)   (* a pure call, result dropped *)
+            end))
+      | SExpr e => bind (ev e) (fun _ => exec fuel' fs globals en lg rest)
+      | SSendOrDone ch v oncancel =>
+          match lookup globals "$cancelled" with
+          | Some (VBool true) => exec fuel' fs globals en lg (oncancel ++ rest)
+          | _ => bind (ev ch) (fun vc => bind (ev v) (fun vv =>
+                   exec fuel' fs globals en (VEff "send" [vc; vv] :: lg) rest))
+          end
+      | SVarZero vars => exec fuel' fs globals (map (fun v => (fst v, zero_of (snd v))) vars ++ en) lg rest
       | SUnknown w => RFail ("outside the fragment: " ++ w)
       end
     end
   end.
 
-(* run a translated function by name *)
+Definition start_env (fn : gfun) (recv : option gval) (args : list gval) : env :=
+  match f_recv fn, recv with
+  | Some r, Some v => (r, v) :: bind_params (f_params fn) args
+  | _, _ => bind_params (f_params fn) args
+  end.
+
+(* run a translated function by name: returned values and the effects, oldest first *)
+Definition run_eff (fs : list (string * gfun)) (globals : env) (name : string) (recv : option gval) (args : list gval)
+  : option (list gval * list gval) :=
+  match lookup fs name with
+  | None => None
+  | Some fn => interp (bind (exec 400 fs globals (start_env fn recv args) [] (f_body fn)) (fun r => RRet (fst r, rev (snd r))))
+  end.
+(* ... of a function without effects *)
 Definition run_fun (fs : list (string * gfun)) (globals : env) (name : string) (recv : option gval) (args : list gval)
   : option (list gval) :=
   match lookup fs name with
   | None => None
-  | Some fn =>
-      let en := match f_recv fn, recv with
-                | Some r, Some v => (r, v) :: bind_params (f_params fn) args
-                | _, _ => bind_params (f_params fn) args
-                end in
-      interp (exec 400 fs globals en (f_body fn))
+  | Some fn => interp (bind (exec 400 fs globals (start_env fn recv args) [] (f_body fn)) (fun r => RRet (fst r)))
   end.
 
 (* package-level names of core/da as the helpers of types/da.go use them; the sentinel texts come from the table
